@@ -13,7 +13,7 @@ REPO = os.environ.get("VERIF_REPO", "/repo")
 LEAN_DIR = os.path.join(VERIF, "lean")
 WORK = os.path.join(VERIF, ".work")
 REPLAYS = os.path.join(VERIF, "replays")
-EVIDENCE = os.path.join(VERIF, "evidence")
+EVIDENCE = os.environ.get("VERIF_EVIDENCE_DIR") or os.path.join(VERIF, "evidence")   # runs against scratch copies (tools/seeded.py) write elsewhere
 DRIVER = os.path.join(LEAN_DIR, ".lake", "build", "bin", "adbdriver")
 PY = sys.executable
 
